@@ -436,7 +436,9 @@ func (lli *llIterator) Current() (key, val []byte, err error) {
 		return nil, nil, moss.ErrIteratorDone
 	}
 
-	return key, val, nil
+	// moss holds on to the key across Next() to detect duplicates, and
+	// the lower level store may reuse its buffers, so hand out copies
+	return append([]byte(nil), key...), append([]byte(nil), val...), nil
 }
 
 func (lli *llIterator) CurrentEx() (
